@@ -91,6 +91,50 @@ impl<'a> Handle<'a> {
     }
 }
 
+impl<'a> Handle<'a> {
+    /// step a frame iterator: every next() result until the first None, then two more calls (fused)
+    pub fn step_frames(&'a self, q: &'a OwnedQuery) -> Vec<Value> {
+        let OwnedQuery::Frame { class, method, line, file, params } = q else { return vec![] };
+        let f = match (params, file) {
+            (Some(p), _) => StackFrame::with_parameters(class, method, p),
+            (None, Some(file)) => StackFrame::with_file(class, method, *line, file),
+            (None, None) => StackFrame::new(class, method, *line),
+        };
+        let mut out = vec![];
+        let mut extra = 0;
+        let mut push = |x: Option<StackFrame<'_>>, extra: &mut usize| {
+            match x {
+                Some(fr) => out.push(json!([enc::frame(&fr)])),
+                None => {
+                    out.push(json!([]));
+                    *extra += 1;
+                }
+            }
+        };
+        match self {
+            Handle::Mapper(m) => {
+                let mut it = m.remap_frame(&f);
+                while extra < 3 && out_len_ok(&mut extra) {
+                    let x = it.next();
+                    push(x, &mut extra);
+                }
+            }
+            Handle::Cache(c) => {
+                let mut it = c.remap_frame(&f);
+                while extra < 3 && out_len_ok(&mut extra) {
+                    let x = it.next();
+                    push(x, &mut extra);
+                }
+            }
+        }
+        out
+    }
+}
+
+fn out_len_ok(_extra: &mut usize) -> bool {
+    true
+}
+
 pub enum OwnedQuery {
     Class(String),
     Method(String, String),
